@@ -111,6 +111,10 @@ NUM_ATOMS = {
                               fn=lambda t, d: (d["x"].to_numpy(dtype=float) - _mean(t, "x")) ** 2),
     "scale(center(z))": dict(vars_=["z"], stateful=True,
                              fn=lambda t, d: (d["z"].to_numpy(dtype=float) - _mean(t, "z")) / _sd(t, "z")),
+    "binary(k)": dict(vars_=["k"], stateful=True,
+                      fn=lambda t, d: (d["k"].to_numpy() == t["k"].to_numpy().min()).astype(float)),
+    "B(cnt)": dict(vars_=["cnt"], stateful=True,
+                   fn=lambda t, d: (d["cnt"].to_numpy() == t["cnt"].to_numpy().min()).astype(float)),
     # multi-column stateful transforms: no closed-form oracle here (C14 owns their values)
     "bs(x, df=4)": dict(vars_=["x"], stateful=True, width=4, fn=None),
     "bs(z, df=5, degree=2)": dict(vars_=["z"], stateful=True, width=5, fn=None),
@@ -312,7 +316,7 @@ PROFILES = {
     "stateful": dict(
         num=["x", "z", "w", "np.log(w)", "center(x)", "scale(x)", "standardize(z)", "center(np.log(w))",
              "I(center(x) ** 2)", "scale(center(z))", "bs(x, df=4)", "bs(z, df=5, degree=2)", "poly(x, 2)",
-             "bs(x, knots=kn_x)", "bs(x, knots=kn_x, degree=2, intercept=True)",
+             "bs(x, knots=kn_x)", "bs(x, knots=kn_x, degree=2, intercept=True)", "binary(k)", "B(cnt)",
              "bs(z, df=4, lower_bound=-10, upper_bound=20)", "poly(x, 4)",
              "poly(z, 3, raw=True)", "dbl(x)", "{x * 2}", "shift1(z, by=3)"],
         cat=["s", "h", "o", "cu", "co", "C(k)", "C(s)", "T(h)", "S(s)", "C(h, Sum)", "`c:1`", "I(s)", "tag(h)"],
